@@ -57,8 +57,8 @@ Qed.
 
 (* how one call may change the stack, as a function of the GrammarType returned *)
 Inductive st_rel : list Z -> Z -> list Z -> Prop :=
-| sr_start_obj st : st_rel st G_StartObject (S_ObjectKey :: st)
-| sr_start_arr st : st_rel st G_StartArray (S_Array :: st)
+| sr_start_obj st : top st <> Some S_ObjectKey -> st_rel st G_StartObject (S_ObjectKey :: st)
+| sr_start_arr st : top st <> Some S_ObjectKey -> st_rel st G_StartArray (S_Array :: st)
 | sr_end_obj st : st_rel (S_ObjectKey :: st) G_EndObject (valfix st)
 | sr_end_arr st : st_rel (S_Array :: st) G_EndArray (valfix st)
 | sr_key st : st_rel (S_ObjectKey :: st) G_String (S_ObjectValue :: st)
@@ -319,10 +319,11 @@ Proof.
     apply (emit_ok d pos0 p g _ (a ++ tok1) ([] ++ [c]) t); auto.
     - discriminate.
     - rewrite Hd2, Hs2. reflexivity. }
-  destruct (hd0 s2 =? 123) eqn:E1.
-  { apply Z.eqb_eq in E1.
+  destruct ((hd0 s2 =? 123) && negb (state =? S_ObjectKey)) eqn:E1.
+  { apply andb_true_iff in E1. destruct E1 as [E1 Ek1]. apply Z.eqb_eq in E1.
     apply (Hbr 123 G_StartObject (S_ObjectKey :: pst p)); [exact E1|lia|discriminate| |apply sr_start_obj|].
     - apply stack_ok_push; [exact Hok|left; reflexivity].
+    - rewrite Htop. intros Hq. inversion Hq. lia.
     - unfold completes_value, G_StartObject, G_Literal, G_Number, G_EndObject, G_EndArray, G_String. intros Hq. lia. }
   destruct (hd0 s2 =? 125) eqn:E2.
   { apply Z.eqb_eq in E2.
@@ -333,10 +334,11 @@ Proof.
     rewrite Hpop. cbn [option_bind].
     apply (Hbr 125 G_EndObject (valfix t)); [exact E2|lia|discriminate| |rewrite Hst; apply sr_end_obj|reflexivity].
     apply stack_ok_valfix. exact Hokt. }
-  destruct (hd0 s2 =? 91) eqn:E3.
-  { apply Z.eqb_eq in E3.
+  destruct ((hd0 s2 =? 91) && negb (state =? S_ObjectKey)) eqn:E3.
+  { apply andb_true_iff in E3. destruct E3 as [E3 Ek3]. apply Z.eqb_eq in E3.
     apply (Hbr 91 G_StartArray (S_Array :: pst p)); [exact E3|lia|discriminate| |apply sr_start_arr|].
     - apply stack_ok_push; [exact Hok|right; right; reflexivity].
+    - rewrite Htop. intros Hq. inversion Hq. lia.
     - unfold completes_value, G_StartArray, G_Literal, G_Number, G_EndObject, G_EndArray, G_String. intros Hq. lia. }
   destruct (hd0 s2 =? 93) eqn:E4.
   { apply Z.eqb_eq in E4.
